@@ -303,7 +303,19 @@ fn drive<T: Transport>(t: T, p: &VsParams, rng: &mut SmallRng) -> String {
                 res_unit(m.send(addr, tgt_lport, &data));
             }
             28..=42 => {
-                let n = match rng.gen_range(0..5) { 0 => 0, 1 => 1, 2 => 5000, _ => rng.gen_range(1..300) };
+                // read sizes: arbitrary ones, and ones tied to what is buffered (all of it, one less,
+                // exactly half, one more)
+                let avail = m.recv_buffer_available_bytes(addr, tgt_lport).unwrap_or(0);
+                let n = match rng.gen_range(0..9) {
+                    0 => 0,
+                    1 => 1,
+                    2 => 5000,
+                    3 => avail,
+                    4 => avail / 2,
+                    5 => avail.saturating_sub(1),
+                    6 => avail + 1,
+                    _ => rng.gen_range(1..300),
+                };
                 let mut buf = vec![0u8; n];
                 let mut c = callj("recv");
                 c["n"] = json!(n);
